@@ -7,7 +7,7 @@ CONSTANTS
   SideChoices <- SidesQuick
   MaxFaulty = 2
   CleanupCounts = {0, 2}
-  Variants = {"plain"}
+  Variants = {"plain", "broken"}
 INVARIANT OneOutcome
 INVARIANT Sequenced
 INVARIANT SuccessIff
